@@ -40,7 +40,7 @@ func RunCases(t *testing.T, rep *Report, testName string, n, workers int, stall 
 	}
 	defer os.RemoveAll(dir)
 	var wg sync.WaitGroup
-	var deaths int64
+	var deaths, hangs int64
 	var dmu sync.Mutex
 	for w := 0; w < workers; w++ {
 		wg.Add(1)
@@ -50,10 +50,10 @@ func RunCases(t *testing.T, rep *Report, testName string, n, workers int, stall 
 			skip := map[int]bool{}
 			for attempt := 0; from < n; attempt++ {
 				dmu.Lock()
-				tooMany := deaths > 40
+				tooMany := deaths > 40 || hangs >= 3
 				dmu.Unlock()
 				if tooMany {
-					rep.NotExhaustive(fmt.Sprintf("worker %d: too many dead cases, stopped at case %d", w, from))
+					rep.NotExhaustive(fmt.Sprintf("worker %d: stopped at case %d after %d dead cases (%d confirmed hangs): the violations already reported stand", w, from, deaths, hangs))
 					return
 				}
 				journal := filepath.Join(dir, fmt.Sprintf("j%d", w))
@@ -117,9 +117,9 @@ func RunCases(t *testing.T, rep *Report, testName string, n, workers int, stall 
 				}
 				if how == "hang" {
 					// a stall under load is not a hang: run that case again, alone, with a generous deadline, before believing it
-					confirm := stall * 2
-					if confirm < 5*time.Minute {
-						confirm = 5 * time.Minute
+					confirm := stall
+					if confirm < 2*time.Minute {
+						confirm = 2 * time.Minute
 					}
 					if confirm > 15*time.Minute {
 						confirm = 15 * time.Minute
@@ -135,6 +135,9 @@ func RunCases(t *testing.T, rep *Report, testName string, n, workers int, stall 
 				}
 				dmu.Lock()
 				deaths++
+				if strings.HasPrefix(how, "hang") {
+					hangs++
+				}
 				dmu.Unlock()
 				onDead(bad, how, tail(outBuf.String(), 3000))
 				skip[bad] = true
